@@ -1,5 +1,6 @@
 #!/usr/bin/env python3
 """C15 - route-conflict detection flags exactly the overlapping same-verb routes."""
+import concurrent.futures
 import json
 import os
 import random
@@ -7,12 +8,17 @@ import sys
 
 sys.path.insert(0, os.path.dirname(os.path.abspath(__file__)))
 from common import *  # noqa
+import c15pipe as PL
 
 PROP = "C15"
 LITS = ["a", "b", "c"]
 PARAMS = ["{x}", "{y}"]
 ODD = ["{x", "x}", "{}", "{", "}", "a{x}", "{x}a", "ab"]
 VERBS = ["GET", "POST", "PUT"]
+# literals for star-shaped lists (one route that overlaps with many same-verb routes)
+WORDS = ["health", "version", "metrics", "status", "ping", "ready", "live", "info", "config", "docs",
+         "items", "users", "posts", "d", "e", "f", "g", "h", "i", "j", "k", "l", "m", "n", "o", "p",
+         "q", "r", "t", "u", "v", "w", "z", "aa", "bb", "cc", "dd", "ee", "ff", "gg", "hh", "ii"]
 
 
 def render_path(rng, segs):
@@ -43,7 +49,44 @@ def gen_segs(rng):
     return out
 
 
+def gen_star(rng):
+    """One route (the centre: a parameter at one position) that overlaps with MANY same-verb routes
+    (the leaves: distinct literals at that position), in a context of shared segments; the centre is
+    usually discovered after its leaves.  A conflict is only ever reported by the entry inserted
+    second, so this is the shape on which per-route limits of any kind show."""
+    verb = rng.choice(VERBS[:2])
+    depth = rng.choice([1, 1, 1, 2, 2, 3])
+    pos = rng.randrange(depth)
+    base = [rng.choice(LITS + PARAMS) for _ in range(depth)]
+    centre = list(base)
+    centre[pos] = rng.choice(PARAMS)
+    r = rng.random()
+    k = rng.randint(9, 13) if r < 0.75 else rng.randint(17, 24) if r < 0.96 else rng.randint(33, 40)
+    entries = []
+    for lit in rng.sample(WORDS, k):
+        sg = list(base)
+        sg[pos] = lit
+        for q in range(depth):
+            if q != pos and rng.random() < 0.2:
+                sg[q] = rng.choice(PARAMS)
+        entries.append({"path": render_path(rng, sg), "verb": verb, "_segs": sg})
+    for _ in range(rng.choice([0, 0, 1, 2, 3])):       # bystanders: other verb, other depth, anything
+        if rng.random() < 0.5:
+            sg = list(centre)
+            v = rng.choice([x for x in VERBS if x != verb])
+        else:
+            sg = gen_segs(rng)
+            v = rng.choice(VERBS)
+        entries.insert(rng.randint(0, len(entries)), {"path": render_path(rng, sg), "verb": v, "_segs": sg})
+    c = {"path": render_path(rng, centre), "verb": verb, "_segs": centre}
+    r = rng.random()
+    entries.insert(len(entries) if r < 0.55 else 0 if r < 0.7 else rng.randint(0, len(entries)), c)
+    return entries
+
+
 def gen_case(rng):
+    if rng.random() < 0.12:
+        return gen_star(rng)
     n = rng.randint(1, 8)
     entries = []
     while len(entries) < n:
@@ -96,7 +139,8 @@ def evaluate(cases, tag="cases"):
     impl = implrun("conflicts", [strip(c) for c in cases])
     disagree, propfail = [], []
     SH = 400
-    for lo in range(0, len(cases), SH):
+
+    def one_chunk(lo):
         chunk = range(lo, min(lo + SH, len(cases)))
         body = HEADER + "Definition cases : list (nat * list entry * list obs) :=\n " + \
             coq_list([coq_case(i, cases[i], impl[i]) for i in chunk]).replace("; (", ";\n (") + ".\n" + \
@@ -104,8 +148,13 @@ def evaluate(cases, tag="cases"):
             "Definition propfail := Eval vm_compute in map cid (filter (fun c => negb (holds c)) cases).\n" \
             "Print disagree.\nPrint propfail.\n"
         out = run_coq_file(PROP, "%s_%d" % (tag, lo), body)
-        disagree += parse_nat_list(out, "disagree")
-        propfail += parse_nat_list(out, "propfail")
+        return parse_nat_list(out, "disagree"), parse_nat_list(out, "propfail")
+
+    los = list(range(0, len(cases), SH))
+    with concurrent.futures.ThreadPoolExecutor(max_workers=4 if len(los) > 8 else 2) as ex:
+        for d, pf in ex.map(one_chunk, los):
+            disagree += d
+            propfail += pf
     unsorted = []
     for i, o in enumerate(impl):
         keys = [(x["a_path"].encode(), x["b_path"].encode(), x["reason"].encode()) for x in o]
@@ -142,6 +191,77 @@ def nontrivial(case, impl):
     return len(impl) > 0
 
 
+def pipeline_leg(a, seed, res, replay_project=None):
+    """The warnings pipeline.Validate() attaches (api.validator.go), see c15pipe.py."""
+    rng = random.Random(seed * 7919 + 15)
+    if replay_project is not None:
+        projects = [replay_project]
+    else:
+        projects = PL.gen_projects(rng, 24 if a.tier == "quick" else 240)
+    work = os.path.join(WORK, "c15pipe")
+    results = PL.evaluate(projects, work)
+
+    def wrong(r):
+        return bool(r["ob"]["stray"]) or not r["holds"]
+
+    def still_wrong(cands):
+        rs = PL.evaluate(cands, os.path.join(WORK, "c15pipe_shrink"), "pipe_shrink")
+        return [("failed" not in r["ob"]) and wrong(r) for r in rs]
+
+    nviol = 0
+    corr = None
+    for pr, r in zip(projects, results):
+        ob = r["ob"]
+        if "failed" in ob:
+            if nviol < 2:
+                res.violation({"kind": "pipeline-fails-on-valid-project", "input": {"pipeline_project": pr},
+                               "implementation_output": ob["failed"]})
+            nviol += 1
+        elif wrong(r):
+            if nviol < 2:
+                small = PL.shrink(pr, still_wrong) if nviol == 0 else pr          # the first one is minimised
+                sr = PL.evaluate([small], work + "_final", "pipe_final")[0]
+                res.violation({"kind": "pipeline-property-fails-on-implementation", "input": {"pipeline_project": small},
+                               "implementation_output": PL.describe(small, sr),
+                               "claim": "prop_C15_pipeline: a method carries a route-conflict warning exactly when its mounted "
+                                        "route (controller prefix + method route) overlaps with the mounted route of another "
+                                        "same-verb method (each offending method receives a warning)"})
+            nviol += 1
+        elif not r["agrees_warn"] and corr is None:
+            corr = ("corr:Conflicts.warned_methods (one warning for either end of every conflict)", pr, r)
+        elif not r["agrees_conf"] and corr is None:
+            corr = ("corr:Conflicts.find_conflicts_obs (entries of the pipeline)", pr, r)
+    if corr is not None and not res.violations:
+        res.violation({"kind": "correspondence", "obligation": corr[0], "input": {"pipeline_project": corr[1]},
+                       "implementation_output": PL.describe(corr[1], corr[2]),
+                       "note": "model and implementation disagree on the warnings; the property oracle accepts the "
+                               "implementation's warnings on all %d projects" % len(projects)}, no_input=True)
+
+    kinds, nmeth, nwarn, coinc, warned_projects, maxfan, multi = {}, 0, 0, 0, 0, 0, 0
+    other = sum(1 for r in results if "failed" not in r["ob"] and r["ob"]["other_diags"] and r["ob"]["warned"])
+    for pr, r in zip(projects, results):
+        kinds[pr["kind"]] = kinds.get(pr["kind"], 0) + 1
+        ob = r["ob"]
+        if "failed" in ob:
+            continue
+        nmeth += len(ob["methods"])
+        nwarn += len(ob["warned"])
+        coinc += ob["coincident_positions"]
+        warned_projects += 1 if ob["warned"] else 0
+        multi += 1 if len(set(m["prefix"] for m in ob["methods"])) > 1 else 0
+        for k in set(ob["warned"]):
+            maxfan = max(maxfan, ob["warned"].count(k))
+    return {
+        "projects": len(projects), "project_kinds": kinds, "methods": nmeth, "route_conflict_warnings": nwarn,
+        "projects_with_warnings": warned_projects, "projects_with_different_controller_prefixes": multi,
+        "route_value_positions_shared_by_methods_of_different_files": coinc,
+        "max_warnings_on_one_method": maxfan,
+        "projects_with_conflict_warnings_and_other_diagnostics": other,
+        "warnings_agree_with_model": sum(1 for r in results if r["agrees_warn"]),
+        "sample": [{"project": projects[i], "observed": PL.describe(projects[i], results[i])} for i in range(min(1, len(projects)))],
+    }
+
+
 def main():
     a, seed = args_for(PROP)
     res = Result(PROP, a.tier, seed)
@@ -154,9 +274,14 @@ def main():
     corpus_file = os.path.join(CORPUS, "C15.json")
     if os.path.exists(corpus_file):
         cases += [[dict(e, _segs=[]) for e in c] for c in json.load(open(corpus_file))]
+    replay_project = None
     if a.replay:
         rp = json.load(open(a.replay))
-        cases = [[dict(e, _segs=[]) for e in rp["input"]]]
+        if isinstance(rp["input"], dict):          # a replay of the pipeline leg
+            replay_project = rp["input"]["pipeline_project"]
+            cases = []
+        else:
+            cases = [[dict(e, _segs=[]) for e in rp["input"]]]
         n = 0
     else:
         n = 300 if a.tier == "quick" else 6000
@@ -164,7 +289,8 @@ def main():
     for _ in range(n):
         c = gen_case(rng)
         cases.append(c)
-        cases += permutations_of(rng, c, 1 if a.tier == "quick" else 3)
+        # thorough: three permutations of the short lists, one of the star-shaped ones (their cost in Coq is quadratic)
+        cases += permutations_of(rng, c, 1 if a.tier == "quick" or len(c) > 8 else 3)
 
     impl, disagree, propfail, unsorted = evaluate(cases)
 
@@ -201,6 +327,10 @@ def main():
                        "input": strip(cases[unsorted[0]]), "implementation_output": impl[unsorted[0]]},
                       no_input=True)
 
+    pipe_cov = {}
+    if replay_project is not None or not a.replay:
+        pipe_cov = pipeline_leg(a, seed, res, replay_project)
+
     distinct = set()
     for c, o in zip(cases, impl):
         if nontrivial(c, o):
@@ -209,6 +339,13 @@ def main():
     for c in cases:
         sizes[len(c)] = sizes.get(len(c), 0) + 1
     kinds = {"Dup": 0, "ParVsLit": 0, "ParVsPar": 0, "LitVsPar": 0}
+    maxfan = 0
+    for o in impl:
+        cnt = {}
+        for x in o:
+            for k in (x["a"], x["b"]):
+                cnt[k] = cnt.get(k, 0) + 1
+        maxfan = max([maxfan] + list(cnt.values()))
     for o in impl:
         for x in o:
             r = x["reason"]
@@ -218,18 +355,25 @@ def main():
     res.coverage.update({
         "evaluations": len(cases), "distinct_nontrivial": len(distinct),
         "rule": "seeded route lists (1-8 entries, depth<=4, 3 literals + 2 parameter names + odd brace "
-                "segments, 3 verbs, slash spellings, duplicates over-represented), each also under "
+                "segments, 3 verbs, slash spellings, duplicates over-represented; 12% star-shaped lists: one "
+                "route overlapping 9-40 same-verb routes, usually discovered after them), each also under "
                 "random permutations; non-trivial = the implementation reports at least one conflict; "
-                "distinct = distinct (path, verb) lists",
+                "distinct = distinct (path, verb) lists.  Pipeline leg: rendered projects (controllers written "
+                "from one skeleton one per file, same-file controls, files / packages, stars) through "
+                "pipeline.Validate(), warned methods vs model and vs the mounted-route oracle",
         "samples": [{"input": strip(cases[i]), "implementation": impl[i]} for i in range(ncorpus, min(len(cases), ncorpus + 3))],
         "traces_validated_against_impl": len(cases) - len(disagree),
         "disagreements": len(disagree), "property_oracle_failures": len(propfail),
         "input_distribution": {"entries_per_list": sizes, "conflict_kinds_reported": kinds,
-                               "corpus_cases": ncorpus},
+                               "corpus_cases": ncorpus, "star_lists_max_conflicts_on_one_entry": maxfan},
+        "pipeline_leg": pipe_cov,
     })
     res.assumptions += [
         "fmt %q is modelled for strings without quote, backslash and non-printable bytes (the generator's alphabet)",
         "order among conflicts with equal sort keys follows Go map iteration; conflicts are compared as multisets",
+        "pipeline leg: a warning is attributed to the method named by its (controller entity, receiver entity, file); "
+        "projects keep controller names distinct across packages (same-named controllers receive each other's methods: "
+        "finding F13)",
     ]
     sys.exit(res.finish())
 
